@@ -175,6 +175,20 @@ func init() {
 			case 3: // corrupt one token: tag number to 0 / 2^29 / 2^31-1, length +-1, unbalanced group
 				recs, ok := u.parseRecs(ti, nil, data)
 				if ok && len(recs) > 0 {
+					// half of the time inside a known sub-message / map entry whose outer frame stays intact
+					var nested []*wrec
+					for _, x := range recs {
+						if x.hasKid && len(x.kids) > 0 {
+							nested = append(nested, x)
+						}
+					}
+					if len(nested) > 0 && cr.intn(2) == 0 {
+						p := nested[cr.intn(len(nested))]
+						inner := corruptToken(cr, p.kids, p.kids[cr.intn(len(p.kids))])
+						p.hasKid, p.kids, p.bytes = false, nil, inner
+						u.decCase(out, ti, serialize(recs), "corrupt-nested")
+						continue
+					}
 					x := recs[cr.intn(len(recs))]
 					d := corruptToken(cr, recs, x)
 					u.decCase(out, ti, d, "corrupt-token")
